@@ -301,6 +301,16 @@ func checkC07(raw json.RawMessage) (ev.Result, error) {
 		if hasEmpty {
 			res.Classes = append(res.Classes, "valid-with-empty-group")
 		}
+		// "never silently drops or weakens a rule": the accepted program decides a sample of events (every listed syscall,
+		// argument values around the operands) as the policy says
+		if err := cp.encode(); err != nil {
+			return res, fmt.Errorf("valid policy accepted, but the program does not encode: %v", err)
+		}
+		evs := gen.Events(p, c.Seed, gen.EventOpts{Own: true, PerNr: 2, MaxNrs: 40, Consts: cp.consts})
+		if err := runEvents(p, cp, evs, hostOrder(), nil); err != nil {
+			return res, fmt.Errorf("valid policy accepted, but a rule was dropped or weakened: %v", err)
+		}
+		res.Sub = 1 + len(evs)
 		res.NonTrivial = len(p.Groups) >= 2 && hasCond
 		return res, nil
 	}
